@@ -13,9 +13,6 @@ Inductive tree :=
 | TNode (k : kind) (items : list (tree * tree))
 | TCut.
 
-Definition is_object (k : kind) : bool :=
-  match k with KModel | KReaction | KMetabolite | KGene | KGroup => true | _ => false end.
-
 Definition list_attr (k : kind) : string :=
   match k with KReaction => "reactions" | KMetabolite => "metabolites" | KGene => "genes" | KGroup => "groups" | _ => "" end.
 
